@@ -56,6 +56,9 @@ func c01Rules(p *core.Prog, r *core.Run) {
 	// context watcher set on it is undone completely (a leftover write deadline
 	// makes the backend's first flight fail)
 	watcherRules(p, r, "C01.ctx")
+	// the HelloRetryRequest of the backend is seen: nothing reaches the
+	// transport past Write
+	transportCensus(p, r, m, "C01.pipe.census")
 }
 
 // c01Accessors checks ServerName, ALPNProtos, ECHAccepted.
